@@ -13,7 +13,8 @@ from vlib.runner import Failure
 ID = "C20"
 LEVEL = "exploration"
 RULE = ("case = (directory tree: depth <= 3, fan-out <= 4, empty directories and empty files, names with spaces / dots / "
-        "non-ASCII; chunk size in {1,2,3,7,64,4096,64000}; file sizes from buckets relative to the chunk: 0,1,c-1,c,c+1,2c-1,"
+        "non-ASCII, optionally every top-level file X accompanied by X.part / X.tmp / X~ / X.bak / X.swp; file contents random, all NUL, "
+        "or with a long leading or trailing run of NUL bytes; chunk size in {1,2,3,7,64,4096,64000}; file sizes from buckets relative to the chunk: 0,1,c-1,c,c+1,2c-1,"
         "2c,2c+1,k*c, arbitrary; filter none / reject a set of base names / reject by suffix; upload or download; whole "
         "tree or single file) over a classic connection pair. oracle: destination == source minus every entry whose base "
         "name the filter rejects (with its subtree): same relative paths (directories included), byte-identical files, "
@@ -31,7 +32,17 @@ def content(seed, size, again=None):
     """`again`: the second version of the same file (other bytes; same or half the size)"""
     if again == "half-size":
         size //= 2
-    return hashlib.shake_256(b"c20:%d%s" % (seed, b":v2" if again else b"")).digest(size) if size else b""
+    if not size:
+        return b""
+    data = hashlib.shake_256(b"c20:%d%s" % (seed, b":v2" if again else b"")).digest(size)
+    # some files are all NUL bytes, some end (or begin) with a long run of them, like sparse or pre-allocated files
+    if seed % 7 == 0:
+        return b"\0" * size
+    if seed % 7 == 1:
+        return data[:size // 2] + b"\0" * (size - size // 2)
+    if seed % 7 == 2:
+        return b"\0" * (size // 2) + data[size // 2:]
+    return data
 
 
 def size_of(bucket, c, k):
@@ -93,6 +104,19 @@ def dedupe(tree):
     return out
 
 
+def add_siblings(tree, suffix):
+    """for every file X of the top directory also a file X<suffix> (names that look like somebody's temporary copy)"""
+    if not suffix:
+        return tree
+    names = set(n for n, _ in tree)
+    out = list(tree)
+    for name, node in tree:
+        if node[0] == "f" and name + suffix not in names:
+            out.append([name + suffix, ["f", node[1], node[2] + 3]])
+            names.add(name + suffix)
+    return out
+
+
 def make_filter(spec):
     if spec is None:
         return None, (lambda n: True)
@@ -127,7 +151,7 @@ def stats(tree, c, accept, acc=None, depth=1):
 def check(case, rec):
     import rpyc
     from rpyc.utils import classic
-    tree = dedupe(case["tree"])
+    tree = add_siblings(dedupe(case["tree"]), case.get("sibling"))
     c = case["chunk"]
     filt, accept = make_filter(case["filter"])
     stt = stats(tree, c, accept)
@@ -143,6 +167,8 @@ def check(case, rec):
     key = {"shape": _shape(tree, c), "chunk": c, "filter": case["filter"], "direction": case["direction"], "mode": case["mode"]}
     rec.case(key if nontrivial else case, nontrivial, classes)
     again = case.get("again")
+    if case.get("sibling"):
+        classes.append("sibling-names:X-and-X" + case["sibling"])
     if again:
         classes.append("second-transfer-over-existing-destination:" + again)
     fails = []
@@ -275,7 +301,8 @@ def cases():
                                   "direction": st.sampled_from(["upload", "download"]),
                                   "mode": st.sampled_from(["tree", "tree", "tree", "file", "missing"]),
                                   "default_chunk": st.booleans(),
-                                  "again": st.sampled_from([None, None, "same-size", "half-size"])})
+                                  "again": st.sampled_from([None, None, "same-size", "half-size"]),
+                                  "sibling": st.sampled_from([None, None, None, ".part", ".tmp", "~", ".bak", ".swp"])})
 
 
 def plan(tier, scale):
